@@ -63,6 +63,7 @@ type Pkg struct {
 	DefaultOnly bool        // S4: run the default parameter variant of every checker only
 	BaseKey     string      // S4 layout variants: "<base package>/<file>" whose diagnostics must coincide
 	Ins         []insertion // S4 layout variants: the inserted blanks (for mapping offsets back)
+	InsWhat     string      // what was inserted when it is not blanks between tokens (names the oracle class context-dependent-position)
 }
 
 var Sizes = types.SizesFor("gc", runtime.GOARCH)
@@ -290,6 +291,7 @@ func LoadS2() ([]*Pkg, []string, error) {
 		}
 		out = append(out, p)
 	}
+	out = append(out, GenShapes()...)
 	return out, skipped, nil
 }
 
